@@ -75,6 +75,12 @@ func evalProp(
 	prop, ok := object.FindPropAlongProtos(recv, propHash)
 
 	if ok {
+		// NOTE: an err object held as a prop (like abstract props of Either) must be copied,
+		// otherwise its stacktrace is shared by all evaluations
+		if err, isErr := prop.(*object.PanErr); isErr {
+			copied := *err
+			return &copied, false
+		}
 		return prop, false
 	}
 
